@@ -987,8 +987,19 @@ fn op_wr(rest: &str) -> Option<String> {
             (Err(_), Err(_)) => true,
             _ => false,
         };
+    // the same writer used again afterwards (one more byte): a refusal, or a success, must not
+    // leave state behind that makes a later write into a writer below its limit fail
+    let mut w3 = v2::Writer::from(pre.clone());
+    let _ = with_payload!(&p, x => x.write_to(&mut w3));
+    let r3 = 7u8.write_to(&mut w3);
+    let out3 = w3.finish();
+    let after = match r3 {
+        Ok(1) if out3.len() == out.len() + 1 && out3[..out.len()] == out[..] && out3[out.len()] == 7 => "ok",
+        Err(_) if out3 == out => "err",
+        _ => "odd",
+    };
     Some(format!(
-        "ret={} pre={} app={} tb={} ref={}",
+        "ret={} pre={} app={} tb={} ref={} after={}",
         match r {
             Ok(n) => format!("ok:{}", n),
             Err(_) => "err".to_string(),
@@ -999,7 +1010,8 @@ fn op_wr(rest: &str) -> Option<String> {
             Ok(b) => hex(&b),
             Err(_) => "err".to_string(),
         },
-        b01(ref_same)
+        b01(ref_same),
+        after
     ))
 }
 
